@@ -45,9 +45,13 @@ const (
 )
 
 var order struct {
-	mode  OrderMode
-	src   Chooser
-	sites map[int32]int64 // permutations applied per site (maps with >= 2 entries)
+	mode OrderMode
+	src  Chooser
+	// permutations applied per site (maps with >= 2 entries).  A plain array,
+	// not a Go map: map operations call race-detector hooks inside the runtime
+	// that //go:norace does not remove, and tasks update this from different
+	// goroutines (one at a time).
+	sites [maxSites]int64
 	calls int64
 	perms int64
 }
@@ -58,10 +62,9 @@ var order struct {
 func SetOrder(mode OrderMode, src Chooser) {
 	order.mode = mode
 	order.src = src
-	if order.sites == nil {
-		order.sites = map[int32]int64{}
-	}
 }
+
+const maxSites = 1 << 14
 
 // OrderStats returns per-site counts of non-trivial permutations applied.
 //
@@ -69,7 +72,9 @@ func SetOrder(mode OrderMode, src Chooser) {
 func OrderStats() (sites map[int32]int64, calls, perms int64) {
 	out := map[int32]int64{}
 	for k, v := range order.sites {
-		out[k] = v
+		if v != 0 {
+			out[int32(k)] = v
+		}
 	}
 	return out, order.calls, order.perms
 }
@@ -99,7 +104,9 @@ func permute[T any](s []T, site int32, sortable bool, less func(a, b T) int) {
 		slices.SortFunc(s, less)
 	}
 	order.perms++
-	order.sites[site]++
+	if site >= 0 && site < maxSites {
+		order.sites[site]++
+	}
 	n := len(s)
 	switch order.mode {
 	case OrderSorted:
@@ -423,7 +430,22 @@ func RLock(l interface {
 	}
 }
 
-var onceOwner = map[*sync.Once]int{}
+// onceOwner records which task is inside which Once (a small table, not a Go
+// map: see the remark on order.sites).
+var onceOwner [32]struct {
+	o     *sync.Once
+	owner int
+}
+
+//go:norace
+func onceFind(o *sync.Once) int {
+	for i := range onceOwner {
+		if onceOwner[i].o == o {
+			return i
+		}
+	}
+	return -1
+}
 
 // OnceDo replaces once.Do(f).
 //
@@ -435,15 +457,25 @@ func OnceDo(o *sync.Once, f func(), site int32) {
 	}
 	Yield(site)
 	for {
-		owner, busy := onceOwner[o]
-		if !busy || owner == sched.cur {
+		i := onceFind(o)
+		if i < 0 || onceOwner[i].owner == sched.cur {
 			break
 		}
 		yieldBlocked(site)
 	}
-	onceOwner[o] = sched.cur
-	defer delete(onceOwner, o)
+	slot := onceFind(nil)
+	if slot >= 0 {
+		onceOwner[slot].o, onceOwner[slot].owner = o, sched.cur
+	}
+	defer onceRelease(o)
 	o.Do(f)
+}
+
+//go:norace
+func onceRelease(o *sync.Once) {
+	if i := onceFind(o); i >= 0 {
+		onceOwner[i].o = nil
+	}
 }
 
 // Go replaces `go f()`: the new goroutine becomes a simulator task.
